@@ -301,6 +301,20 @@ def clausesP (par : List (Nat × Nat)) (s : RStmt) : Clauses :=
     cout := withParents par (clauses s).cout
     cpy := withParents par (clauses s).cpy }
 
+/-- calls of unknown intent: every argument gets a READWRITE access, exported as READ then
+WRITE — equivalent for `is_written_first`, `is_read`, `is_written`, but
+`create_data_movement_deep_copy_refs` tests `has_read_write` FIRST: a signature with a
+READWRITE access anywhere goes to `copy` whatever its first access.  `rw` = the variables that
+are arguments of such calls in the region (differential run only; not covered by theorems). -/
+def clausesRW (rw : List Nat) (c : Clauses) : Clauses :=
+  { cin := c.cin.filter (fun x => !rw.contains x)
+    cout := c.cout.filter (fun x => !rw.contains x)
+    cpy := c.cpy ++ (c.cin ++ c.cout).filter rw.contains }
+
+def clausesG (rw : List Nat) (par : List (Nat × Nat)) (s : RStmt) : Clauses :=
+  let c := clausesRW rw (clauses s)
+  { cin := withParents par c.cin, cout := withParents par c.cout, cpy := withParents par c.cpy }
+
 /-- region items as seen by `ACCDataTrans.validate`: a MiniF statement, or a top-level node
 that is or contains (`walk`) a node of an excluded type (`CodeBlock`, `Return`, `PSyDataNode`) -/
 inductive Item where
@@ -337,10 +351,11 @@ def accDataTrans (hasEnterData : Bool) (items : List Item) : Option Clauses :=
   if items.isEmpty || hasExcluded items || hasEnterData then none
   else some (clauses (rseqs (itemsStmt items)))
 
-/-- the same with structure members (`par` empty gives `accDataTrans`) -/
-def accDataTransP (hasEnterData : Bool) (par : List (Nat × Nat)) (items : List Item) : Option Clauses :=
+/-- the same with structure members and call arguments (`rw`, `par` empty give `accDataTrans`) -/
+def accDataTransP (hasEnterData : Bool) (rw : List Nat) (par : List (Nat × Nat)) (items : List Item) :
+    Option Clauses :=
   if items.isEmpty || hasExcluded items || hasEnterData then none
-  else some (clausesP par (rseqs (itemsStmt items)))
+  else some (clausesG rw par (rseqs (itemsStmt items)))
 
 /-! ### execution with separate device memory
 
